@@ -99,3 +99,53 @@ def merge_obj(m, c, oa, ob):
             return oa.clone()
         raise OutOfSubset("merge of sets")
     raise OutOfSubset("merge of objects")
+
+
+def merge_outcomes(I, base, outs):
+    """Join the normal outcomes of one statement (contract option `merge_calls`) into a single state whose values are ite terms
+    over the outcomes' local path conditions; exceptional outcomes are kept as they are.  Returns None when not mergeable
+    (different effects / ghost kinds / object kinds), in which case the caller keeps the separate paths."""
+    normals = [o for o in outs if o.kind == "normal"]
+    rest = [o for o in outs if o.kind != "normal"]
+    if len(normals) < 2:
+        return None
+    nb = len(base.pc)
+
+    def local(s):
+        loc = [x for x in s.pc[nb:]]
+        return z3.And(*loc) if loc else z3.BoolVal(True)
+    try:
+        cur = normals[0].state
+        for o in normals[1:]:
+            b = o.state
+            if len(cur.effects) != len(base.effects) or len(b.effects) != len(base.effects) or cur.guards != b.guards:
+                return None
+            ca, cb = local(cur), local(b)
+            m = base.fork()
+            for n in set(cur.env) | set(b.env):
+                if n not in cur.env or n not in b.env:
+                    m.env[n] = cur.env.get(n, b.env.get(n))
+                    continue
+                va, vb = cur.env[n], b.env[n]
+                m.env[n] = va if va is vb else ite(m, ca, va, vb)
+            for oid in set(cur.heap) | set(b.heap):
+                oa, ob = cur.heap.get(oid), b.heap.get(oid)
+                if oa is None or ob is None:
+                    m.heap[oid] = (oa or ob).clone()
+                else:
+                    m.heap[oid] = merge_obj(m, ca, oa, ob)
+            for g in set(cur.ghost) | set(b.ghost):
+                ga, gb = cur.ghost.get(g), b.ghost.get(g)
+                if ga is gb or (z3.is_expr(ga) and z3.is_expr(gb) and ga.eq(gb)):
+                    m.ghost[g] = ga
+                elif g in cur.ghost and g in b.ghost and z3.is_expr(ga) and z3.is_expr(gb):
+                    m.ghost[g] = z3.If(ca, ga, gb)
+                else:
+                    return None
+            m.pc = list(base.pc) + [z3.Or(ca, cb)]
+            m.path = list(cur.path)
+            cur = m
+        from .state import Outcome
+        return rest + [Outcome("normal", cur)]
+    except OutOfSubset:
+        return None
